@@ -101,7 +101,7 @@ def run(ctx):
             mode = "real" if (special or rng.random() < 0.3) else "mem"
             dirs = L.parent_dirs([P.DIR + "/" + n for n in names])
             cases.append({"ss": ss, "files": dict(files), "fs": fs, "index": index, "base": base, "exps": sorted(set(expset)),
-                          "dmg": dmg, "mode": mode,
+                          "dmg": dmg, "mode": mode, "S": S,
                           "vline": L.line_verify("p2", mode, index, 1, fs, dirs=dirs),
                           "rline": L.line_repair("p2", mode, index, rng.random() < 0.5, rng.choice([1, 2]), fs, dirs=dirs)})
     vi, vm = P.run_both(ctx, vh, model, [c["vline"] for c in cases])
@@ -123,6 +123,25 @@ def run(ctx):
         if ca["pusable"] != len(c["exps"]):
             report("%d intact recovery blocks lie beside the index (base name %r, exponents %s) but %d are found" %
                    (len(c["exps"]), c["base"], c["exps"], ca["pusable"]), replay); continue
+        # the counts and the outcome judged WITHOUT the model (from the writer's own knowledge of the set): an undamaged set is
+        # clean; a deleted or flipped file costs at most its own slices; repaired = what was damaged
+        nslices = sum((len(d_) + c["S"] - 1) // c["S"] for d_ in c["files"].values()) if c.get("S") else None
+        damaged_names = [n_ for n_, d_ in c["files"].items() if c["fs"].get(P.DIR + "/" + n_) != d_]
+        if nslices is not None:
+            if ca["usable"] + ca["unusable"] != nslices:
+                report("usable + unusable = %d, the set has %d slices (base %r)" % (ca["usable"] + ca["unusable"], nslices, c["base"]), replay); continue
+            if c["dmg"] == "none" and (ca["needed"] != 0 or ca["unusable"] != 0):
+                report("an undamaged conformant set does not verify clean (needed=%d, unusable=%d, base %r, exponents %s)" % (ca["needed"], ca["unusable"], c["base"], c["exps"]), replay); continue
+            worst = sum((len(c["files"][n_]) + c["S"] - 1) // c["S"] for n_ in damaged_names)
+            if ca["unusable"] > worst:
+                report("%d slices counted unusable, the damaged files %s have %d slices in all" % (ca["unusable"], damaged_names, worst), replay); continue
+            if damaged_names and ca["needed"] != 1:
+                report("files %s differ from the protected content but Verify reports no repair needed" % damaged_names, replay); continue
+            if worst <= len(c["exps"]) and px["res"] not in ("ok", "err:singular"):
+                report("Repair failed (%s) although the damaged files have %d slices and %d intact blocks lie beside the index (base %r, exponents %s)" %
+                       (px["res"], worst, len(c["exps"]), c["base"], c["exps"]), replay); continue
+            if px["res"] == "ok" and sorted(px["repaired"]) != sorted(P.DIR + "/" + n_ for n_ in damaged_names):
+                report("Repair lists %s, the damaged files are %s" % (sorted(px["repaired"]), damaged_names), replay); continue
         # repair: when unusable <= blocks the files must come back (or the PAR2 singular error), never wrong bytes
         after = L.apply_changed(c["fs"], px["changed"])
         wrong = [n for n, d in c["files"].items() if after.get(P.DIR + "/" + n) != d]
@@ -142,5 +161,5 @@ def run(ctx):
         "proof",
         rule="sets written by an independent Python PAR 2.0 writer (checks/par2writer.py, from the specification; byte-identical to gopar in the canonical layout) in free layouts: permuted and duplicated packets, foreign-set and unknown-type packets interleaved, exponent subsets {0},{0,1,2},{5,17,1000},{2999},{1,3},{0..6},{300,2}, 1-4 recovery files named base.<anything>.par2 (spaces, dots, glob metacharacters), base names with [ ] * ? \\ { and spaces (those on a real directory), names in sub-directories; x damage none/delete/flip/swap; every case counts (all layouts differ from gopar's own)",
         extra={"input_distribution": dist,
-               "predicate": "Verify accepts; usable recovery blocks = number of distinct exponents present; Repair never succeeds with wrong bytes; unusable <= blocks => Repair succeeds (or the model's singular verdict)",
+               "predicate": "judged without the model: usable+unusable = slices of the set; undamaged => clean; unusable <= slices of the damaged files; damaged => repair needed; damaged slices <= blocks => Repair succeeds (or singular) and lists exactly the damaged files; and: Verify accepts; usable recovery blocks = number of distinct exponents present; Repair never succeeds with wrong bytes; unusable <= blocks => Repair succeeds (or the model's singular verdict)",
                "compared": "counts, outcome class, repaired paths, changed files (and I/O trace in memory) vs the extracted model"})
